@@ -829,3 +829,21 @@ Section GradLen.
     - destruct vti; intros v Hv; inversion Hv. now rewrite fd_grad_length.
   Qed.
 End GradLen.
+
+(* ---- histories: every extract_1d answer is the extraction of the arrays as
+   they are at that moment (whatever was extracted or edited before) -------- *)
+Section Histories.
+  Context {F : Type} {O : FOps F}.
+  Variable ex : list (Z -> Z -> Z -> F) -> xerr + @ext F.
+  Lemma run_hist_fresh : forall (ops1 : list (@hop F)) props ops2,
+    nth_error (run_hist ex props (ops1 ++ HExtract :: ops2))
+              (List.length (filter is_extract ops1))
+    = Some (ex (fold_left edit_props ops1 props)).
+  Proof.
+    induction ops1 as [|o t IH]; intros props ops2.
+    - reflexivity.
+    - destruct o as [p i j k v|].
+      + cbn [app run_hist filter is_extract fold_left]. apply IH.
+      + cbn [app run_hist filter is_extract fold_left List.length nth_error edit_props]. apply IH.
+  Qed.
+End Histories.
